@@ -40,7 +40,7 @@ def c02(case):
     text, ch = a["text"], a["channel"]
     dmin, dmax, bh, qd = a["dmin"], a["dmax"], a["bh"], a.get("qq_depth")
     try:
-        if ch in ("config", "plss"):
+        if ch in ("config", "plss", "bulk", "bulk_plss"):
             parts = []
             if qd is not None:
                 parts.append("qq_depth.%d" % qd)
@@ -53,6 +53,17 @@ def c02(case):
             cfg = ",".join(parts)
             if ch == "config":
                 t = pytrs.Tract(text, parse_qq=True, config=cfg)
+            elif ch == "bulk":
+                # configured tracts parsed through their container: parse_tracts() without arguments uses each tract's
+                # own settings
+                t = pytrs.Tract(text, config=cfg)
+                pytrs.TractList([t]).parse_tracts()
+            elif ch == "bulk_plss":
+                d = pytrs.PLSSDesc("T154N-R97W Sec 14: " + text, config=cfg)
+                if len(d.tracts) != 1:
+                    return {"exc": "none", "qqs": None, "note": "plss wrapper gave %d tracts" % len(d.tracts)}
+                d.tracts.parse_tracts()
+                t = d.tracts[0]
             else:
                 d = pytrs.PLSSDesc("T154N-R97W Sec 14: " + text, parse_qq=True, config=cfg)
                 if len(d.tracts) != 1:
@@ -143,6 +154,9 @@ def _lot_int(s):
     return int(m.group(1)) if m else -1
 
 
+_C05_CFG = [None]
+
+
 def c05(case):
     import pytrs
     a = case["args"]
@@ -152,7 +166,15 @@ def c05(case):
             secs = pytrs.find_sec(text)
             return {"exc": "none", "obs": [[int(s) for s in secs]], "nonseq": None, "shared": True, "raw": secs}
         if flavour == "plss":
-            d = pytrs.PLSSDesc(a["prefix"] + text + a["suffix"])
+            kw = {}
+            if a.get("shared_cfg"):
+                # the caller keeps one Config object for all its descriptions; some calls add the layout by keyword
+                if _C05_CFG[0] is None:
+                    _C05_CFG[0] = pytrs.Config("n,w")
+                kw["config"] = _C05_CFG[0]
+            if a.get("layout_kw"):
+                kw["layout"] = a["layout_kw"]
+            d = pytrs.PLSSDesc(a["prefix"] + text + a["suffix"], **kw)
             secs = [int(t.sec) if t.sec.isdigit() else -1 for t in d.tracts]
             shared = all(t.desc == a["block"] for t in d.tracts)
             nonseq = any(f == "nonsequential_sections" for f in d.w_flags)
@@ -255,9 +277,17 @@ def c12(case):
     a = case["args"]
     ch = a["channel"]
     o = None
+    _mc_old = None
     try:
         if a["mode"] == "build":
             kw = {}
+            if a.get("via_mc") and (a.get("dns") or a.get("dew")):
+                # the same defaults as the program-wide MasterConfig settings (set after import, as a program would),
+                # the call itself says nothing about directions
+                _mc_old = (pytrs.MasterConfig.default_ns, pytrs.MasterConfig.default_ew)
+                pytrs.MasterConfig.default_ns = a.get("dns") or _mc_old[0]
+                pytrs.MasterConfig.default_ew = a.get("dew") or _mc_old[1]
+                a = dict(a, dns=None, dew=None)
             if a.get("dns"):
                 kw["default_ns"] = a["dns"]
             if a.get("dew"):
@@ -304,6 +334,9 @@ def c12(case):
         return {"exc": "none", "out": out, "rewrap": x.trs, "eq": bool(eq), "attrs": attrs}
     except Exception as e:  # noqa
         return _exc(e)
+    finally:
+        if _mc_old is not None:
+            pytrs.MasterConfig.default_ns, pytrs.MasterConfig.default_ew = _mc_old
 
 
 # ---------------------------------------------------------------------------
@@ -424,10 +457,31 @@ def _pairs(tracts, table):
     return out
 
 
+_C20_SWITCHES = ("segment", "sec_within", "sec_colon_required", "sec_colon_cautious", "parse_qq")
+
+
+def _c20_cfg(text, form):
+    """the configuration as the case wants it handed over: the text itself, or a Config object built from keywords / a
+    dict in which EVERY mode switch is spelled out (True for the ones the text names, False for the others)"""
+    import pytrs
+    if not form or form == "text" or text is None:
+        return text
+    names = [x.strip() for x in text.split(",") if x.strip()]
+    settings = {k: (k in names) for k in _C20_SWITCHES}
+    if form == "kwargs_full":
+        return pytrs.Config.from_kwargs(**settings)
+    return pytrs.Config.from_dict(settings)
+
+
 def c20(case):
     import pytrs
-    a = case["args"]
+    a = dict(case["args"])
     mode = a["mode"]
+    form = a.get("cfg_form")
+    if form:
+        for k_ in ("cfg_b", "cfg"):
+            if k_ in a:
+                a[k_] = _c20_cfg(a[k_], form)
     if mode == "same":
         table = {}
         r = {"a_exc": "none", "b_exc": "none", "a": [], "b": [], "has_warning": False}
@@ -599,9 +653,31 @@ EMPTY_OBS = {"layout": "?", "tracts": [], "wflags": [], "eflags": [], "wfirsts":
              "flawed": False, "unused": [], "trig": []}
 
 
+class _DryView:
+    """What a caller holds after `tracts = PLSSDesc(text, ..., wait_to_parse=True).parse(commit=False)`: the returned
+    tracts and nothing else (nothing is stored on the description), so the tracts' own flags are the only report."""
+
+    def __init__(self, d, tracts):
+        self.tracts = tracts
+        self.pp_desc = d.preprocess(commit=False) if hasattr(d, "preprocess") else ""
+        self.current_layout = "?"
+        for name in ("w_flags", "e_flags", "w_flag_lines", "e_flag_lines"):
+            seen = []
+            for t in tracts:
+                for f in getattr(t, name):
+                    if f not in seen:
+                        seen.append(f)
+            setattr(self, name, seen)
+        self.desc_is_flawed = bool(self.e_flags)
+
+
 def plss(case):
     a = case["args"]
     try:
+        if a.get("view") == "dry_tracts":
+            import pytrs
+            d0 = pytrs.PLSSDesc(a["text"], config=a.get("config"), source=a.get("source", "SRC-1"), wait_to_parse=True)
+            return plss_project(_DryView(d0, d0.parse(commit=False)), a)
         d = plss_make(a)
         post = a.get("post")
         if post == "parse_tracts":
@@ -888,7 +964,11 @@ def _c13_run(scn, table):
             proj = (t.trs, t.twp, t.rge)
         else:
             text = C13_TRACT_TEXTS[s]
-            t = pytrs.Tract(text, "154n97w14", config=cfgtext_ch("init_config"), **init_kw)
+            if scn.get("ctor") == "components":
+                # the other constructor: "parameters are the same as __init__()"
+                t = pytrs.Tract.from_twprgesec(text, 154, "97w", "14", config=cfgtext_ch("init_config"), **init_kw)
+            else:
+                t = pytrs.Tract(text, "154n97w14", config=cfgtext_ch("init_config"), **init_kw)
             if cfgtext_ch("assign_config") is not None:
                 t.config = cfgtext_ch("assign_config")
             if s != "parse_qq":
@@ -1839,6 +1919,16 @@ def _c06_obs(text, suppress, table, seq=False, cfgx=None):
         # keyword of TractList.parse_tracts() (an explicit True / False) takes priority
         t = pytrs.Tract(text, config="suppress_lot_divs.%s" % (not suppress))
         pytrs.TractList([t]).parse_tracts(suppress_lot_divs=suppress)
+    elif seq == "plss_steps":
+        # the tract of a description that was configured in two steps before it was parsed: the division setting at
+        # creation, 'parse_qq' assigned afterwards (an assignment changes what it names and leaves the rest)
+        d = pytrs.PLSSDesc("T154N-R97W Sec 14: " + text, config="suppress_lot_divs.%s" % bool(suppress), wait_to_parse=True)
+        d.config = "parse_qq"
+        d.parse()
+        if len(d.tracts) == 1 and d.tracts[0].desc.strip() == text.strip():
+            t = d.tracts[0]
+        else:                           # (the text did not survive as one block: observe the tract alone)
+            t = pytrs.Tract(text, parse_qq=True, config="suppress_lot_divs" if suppress else None)
     elif seq == "thrice":
         # two committed parses under other settings (lot divisions the other way round, quarters only - settings under
         # which other things repeat), then the settings are put right and the observed parse is the third
